@@ -5,6 +5,7 @@
 use vstd::prelude::*;
 use std::ops::RangeInclusive;
 verus! {
+//@begin-export
 
 pub type BlockRange = RangeInclusive<u64>;
 
@@ -1656,6 +1657,7 @@ impl BlockRanges {
 //@end
 
 } // impl BlockRanges
+//@end-export
 
 } // verus!
 fn main() {}
